@@ -11,7 +11,9 @@ and `Fp.One` (fparser1 block nesting) against the real code.
 (ii) check_nest1(model, src, isfree): run the REAL fparser.api.parse(analyze=False), read the
      nesting off `.content` of the BeginStatement instances, classify every source line
      independently (regexes below, not fparser's), compare with the model `nest1`; plus
-     the direct C19 oracle body(str(parse1(str(parse1 P)))) == body(str(parse1 P)).
+     the direct C19 oracle body(str(parse1(str(parse1 P)))) == body(str(parse1 P)), which
+     must hold on EVERY accepted source (HEAD: the shared-DO-label duplication and the lost
+     FORALL / ASSOCIATE header are fixed; `Fp.One.nest1_print_stable` is unconditional).
 
 Run:  /venv/bin/python -m fv.cosim_norm --seed 1 --n 300
 """
@@ -375,6 +377,7 @@ enum, bind(c) \n enumerator a \n endenum
 """
 
 PROGRAMS = [
+    "subroutine s\n ; z = 3\n ;; y = 4 ; x = 5\nend subroutine s\n",
     "program p\n real(8)::x\n close(10)\nendprogram\n",
     "program p\n integer i\nend program p\n",
     "subroutine s() bind(c)\nend subroutine\n",
@@ -416,6 +419,8 @@ PROGRAMS = [
 
 # valid inputs whose printed form is NOT the same token sequence modulo the documented
 # canonicalisations: (description, source)
+# (a free-form line starting with ';' used to lose its statements, F-C12-1: fixed at HEAD, now
+#  a positive sample in PROGRAMS)
 KNOWN_DEVIATIONS = [
     ("CHARACTER(KIND=k, LEN=n) is printed LEN first: two tokens reordered",
      _wrap(["character(kind=1,len=10) e"])),
@@ -423,8 +428,6 @@ KNOWN_DEVIATIONS = [
      _wrap(["common q3"])),
     ("statement label with leading zeros is printed without them (label not char-for-char)",
      _wrap(["010 continue"])),
-    ("free-form line starting with ';' loses the statement (F-C12-1)",
-     _wrap(["; z = 3"])),
 ]
 
 
@@ -728,10 +731,11 @@ def check_nest1(model, src, isfree=True):
     """-> dict(agree=bool, real=…, model=…, c19=bool|None, shared=bool)"""
     tree, err = parse1(src, isfree)
     enc = encode_lines(src, isfree)
-    # fparser1 prints the header of a FORALL / ASSOCIATE construct as the tokeniser
-    # placeholder `F2PY_EXPR_TUPLE_n` (process_item forgets apply_map): known C19 defect
-    res = {"shared": False, "c19": None,
-           "lost_header": bool(re.search(r";O;(forall|associate);", enc))}
+    # `shared`: a DO-terminating statement was handed to the enclosing DO (same label).
+    # `lost_header` is kept (always False) for callers written when fparser1 still printed the
+    # header of FORALL / ASSOCIATE as a tokeniser placeholder; that defect is fixed at HEAD.
+    res = {"shared": False, "c19": None, "lost_header": False,
+           "has_forall_assoc": bool(re.search(r";O;(forall|associate);", enc))}
     rep = model.ask("nest1", enc)
     if tree is not None:
         res["real"] = ("ok", real_nesting(tree))
@@ -807,10 +811,12 @@ class Gen:
                 out += self.labeldo(depth)
             elif k < 0.86:
                 out += self.select(depth)
-            elif k < 0.93:
+            elif k < 0.92:
                 out += self.where()
-            else:
+            elif k < 0.96:
                 out += self.forall()
+            else:
+                out += self.associate(depth)
         return out
 
     def endw(self, a, b):
@@ -840,8 +846,12 @@ class Gen:
         self.lab += 10
         lab = self.lab
         k = r.random()
-        if k < 0.2 and d > 1:   # shared label (known defect: terminal statement duplicated)
-            return ["do %d i = 1, 3" % lab, "do %d j = 1, 3" % lab] + self.body(d - 2) + ["%d continue" % lab]
+        if k < 0.2 and d > 1:   # shared label: the terminal statement closes both (or three) loops
+            heads = ["do %d i = 1, 3" % lab, "do %d j = 1, 3" % lab]
+            if r.random() < 0.3:
+                heads.append("do %d k = 1, 3" % lab)
+            mid = self.body(d - 2) if r.random() < 0.5 else []
+            return heads[:1] + mid + heads[1:] + self.body(d - 2) + ["%d %s" % (lab, r.choice(["continue", "x = x + 1"]))]
         term = r.choice(["continue", "x = x + 1", "end do", "enddo"])
         return ["do %d%s i = 1, 3" % (lab, r.choice(["", ","]))] + self.body(d - 1) + ["%d %s" % (lab, term)]
 
@@ -862,7 +872,17 @@ class Gen:
         return out + [self.endw("end", "where")]
 
     def forall(self):
-        return ["forall (i = 1:n)", "y(i) = i", self.endw("end", "forall")]
+        r = self.rng
+        cn = self.name("fa") if r.random() < 0.25 else ""
+        head = r.choice(["forall (i = 1:n)", "forall (i = 1:n, j = 1:3, y(i) > 0)", "forall (i=1:n:2)"])
+        return [(cn + ": " if cn else "") + head, "y(i) = i", self.endw("end", "forall") + (" " + cn if cn and r.random() < 0.7 else "")]
+
+    def associate(self, d):
+        r = self.rng
+        cn = self.name("as") if r.random() < 0.25 else ""
+        head = r.choice(["associate (v => x + 1)", "associate (v => y(1), w => a%b)", "associate(v=>f(x, 'a)b'))"])
+        return ([(cn + ": " if cn else "") + head] + self.body(d - 1)
+                + [self.endw("end", "associate") + (" " + cn if cn and r.random() < 0.7 else "")])
 
     def decls(self):
         r = self.rng
@@ -1002,8 +1022,8 @@ def run_roundtrip(model, rng, verbose=False):
 
 def run_nest(model, rng, n):
     st = {"n": 0, "agree": 0, "disagree": [], "real_ok": 0, "real_err": 0, "real_other": [],
-          "c19_ok": 0, "c19_fail": [], "shared": 0, "c19_fail_unshared": [], "struct_diff": 0,
-          "lost_header": 0}
+          "c19_ok": 0, "c19_fail": [], "shared": 0, "shared_stable": 0, "fa": 0, "fa_stable": 0,
+          "struct_diff": 0}
     for src, isfree in gen_sources(rng, n):
         st["n"] += 1
         r = check_nest1(model, src, isfree)
@@ -1015,18 +1035,21 @@ def run_nest(model, rng, n):
             st["agree"] += 1
         else:
             st["disagree"].append((src, isfree, r["real"], r["model"]))
-        if r["shared"]:
+        acc = r["real"][0] == "ok"
+        if r["shared"] and acc:
             st["shared"] += 1
+        if r["has_forall_assoc"] and acc:
+            st["fa"] += 1
         if r["c19"] is True:
             st["c19_ok"] += 1
+            if r["shared"]:
+                st["shared_stable"] += 1
+            if r["has_forall_assoc"]:
+                st["fa_stable"] += 1
             if r.get("c19_struct") is False:
                 st["struct_diff"] += 1
         elif r["c19"] is False:
             st["c19_fail"].append((src, isfree, r.get("c19_detail")))
-            if r["lost_header"]:
-                st["lost_header"] += 1
-            if not r["shared"] and not r["lost_header"]:
-                st["c19_fail_unshared"].append((src, isfree, r.get("c19_detail")))
     return st
 
 
@@ -1073,13 +1096,15 @@ def main(argv=None):
         print("  DISAGREE free=%s real=%s model=%s\n%s" % (isfree, real, mod, src))
     for src, why in sn["real_other"][:5]:
         print("  OTHER %s\n%s" % (why, src))
-    print("== C19 direct oracle: %d stable, %d not stable (known defects: %d FORALL/ASSOCIATE header lost, "
-          "%d shared DO label; %d unexplained), structure differs %d"
-          % (sn["c19_ok"], len(sn["c19_fail"]), sn["lost_header"],
-             len(sn["c19_fail"]) - len(sn["c19_fail_unshared"]) - sn["lost_header"],
-             len(sn["c19_fail_unshared"]), sn["struct_diff"]))
+    print("== C19 direct oracle: %d stable, %d not stable, structure differs %d; formerly unstable classes: "
+          "shared DO label %d accepted / %d stable, FORALL/ASSOCIATE %d accepted / %d stable"
+          % (sn["c19_ok"], len(sn["c19_fail"]), sn["struct_diff"], sn["shared"], sn["shared_stable"],
+             sn["fa"], sn["fa_stable"]))
     bad += sn["struct_diff"]
-    for src, isfree, why in sn["c19_fail_unshared"][:5]:
+    if a.n >= 200 and (sn["shared"] == 0 or sn["fa"] == 0):
+        bad += 1
+        print("  GENERATOR COVERAGE: no accepted shared-label / FORALL-ASSOCIATE source")
+    for src, isfree, why in sn["c19_fail"][:5]:
         bad += 1
         print("  C19 FAIL free=%s %s\n%s" % (isfree, why, src))
     print("RESULT", "OK" if bad == 0 else "FAIL(%d)" % bad)
